@@ -79,7 +79,13 @@ func (runInfo *runInfoStruct) invokeLetMemberExpr(expr *ast.MemberExpr) {
 			runInfo.rv = nilValue
 			return
 		}
-		runInfo.rv = runInfo.rv.FieldByIndex(field.Index)
+		var ok bool
+		runInfo.rv, ok = fieldByIndex(runInfo.rv, field.Index)
+		if !ok {
+			runInfo.err = newStringError(expr, "member '"+expr.Name+"' is reached through a nil embedded pointer")
+			runInfo.rv = nilValue
+			return
+		}
 		// From reflect CanSet:
 		// A Value can be changed only if it is addressable and was not obtained by the use of unexported struct fields.
 		// Often a struct has to be passed as a pointer to be set
